@@ -760,7 +760,7 @@ func sortStrings(s []string) {
 
 // Branch is one local transaction of a scenario.
 type Branch struct {
-	Mode     string `json:"mode"`     // auto (one autocommit statement) | tx (explicit BeginTx … Commit)
+	Mode     string `json:"mode"`     // auto (autocommit statements) | tx (explicit BeginTx … Commit) | mixed (pinned conn: all but the last statement in an explicit transaction, the last in autocommit)
 	Via      string `json:"via"`      // db | conn (pinned *sql.Conn)
 	Prepared bool   `json:"prepared"` // use PrepareContext + stmt.ExecContext
 	Stmts    []Stmt `json:"stmts"`
@@ -784,6 +784,7 @@ type Scenario struct {
 // ScenarioOptions tune DrawScenario.
 type ScenarioOptions struct {
 	NoPrepared  bool
+	SingleAuto  bool // autocommit branches have exactly one statement
 	MaxTables   int
 	MaxBranches int
 	MaxStmts    int
@@ -832,6 +833,13 @@ func DrawScenario(t *rapid.T, o ScenarioOptions) Scenario {
 		ns := 1
 		if br.Mode == "tx" {
 			ns = rapid.IntRange(1, o.MaxStmts).Draw(t, "nStmts")
+		} else if br.Via == "conn" && !o.SingleAuto {
+			// a session: consecutive autocommit statements (each its own local transaction) on one
+			// pinned connection, optionally preceded by an explicit transaction on that connection
+			ns = rapid.IntRange(1, o.MaxStmts).Draw(t, "nStmts")
+			if ns >= 2 && rapid.IntRange(0, 2).Draw(t, "mixed") == 0 {
+				br.Mode = "mixed"
+			}
 		}
 		for j := 0; j < ns; j++ {
 			br.Stmts = append(br.Stmts, DrawStmt(t, sc.Tables, o.Stmt))
